@@ -28,7 +28,7 @@ func runC12(p *core.Program, r *core.Report) {
 		r.Anchor("R1", "pkg/types.newPkg")
 		return
 	}
-	c12R1R3(p, r, np)
+	c12R1R3(p, r, flatten(p, np)) // a closure's parameter object shown as its parameters
 	c12R2(p, r)
 	c12R4(p, r)
 	// R5: Doc and Comment build their answer from the indexes on every call and remember
@@ -106,6 +106,24 @@ func c12R1R3(p *core.Program, r *core.Report, np *core.Func) {
 	if col == nil {
 		r.Anchor("R1", "closure in newPkg that stores into the leading and the trailing comment index")
 		return
+	}
+	// the functions under newPkg: the program's literals, or - when newPkg is read through a view that has literals of
+	// its own (a closure's parameter object shown as parameters) - the view's
+	npRaw := np
+	if np.Origin != nil {
+		npRaw = np.Origin
+	}
+	under := func() []*core.Func {
+		if np.Origin != nil {
+			return np.AllFuncs()
+		}
+		var out []*core.Func
+		for _, f := range p.Funcs() {
+			if f.Root() == np {
+				out = append(out, f)
+			}
+		}
+		return out
 	}
 	colVar := litVar(col)
 	params := col.Type.Params.List
@@ -203,7 +221,14 @@ func c12R1R3(p *core.Program, r *core.Report, np *core.Func) {
 	}
 
 	// no other store into the two indexes anywhere
+	var everywhere []*core.Func
 	for _, f := range p.Funcs() {
+		if f.Root() != npRaw {
+			everywhere = append(everywhere, f)
+		}
+	}
+	everywhere = append(everywhere, under()...)
+	for _, f := range everywhere {
 		if core.RelPkg(f.Pkg.PkgPath) != "pkg/types" || f == col {
 			continue
 		}
@@ -225,10 +250,7 @@ func c12R1R3(p *core.Program, r *core.Report, np *core.Func) {
 	// call sites of the closure
 	nodeKindsWithComment := map[string]bool{}
 	calls := 0
-	for _, f := range p.Funcs() {
-		if f.Root() != np {
-			continue
-		}
+	for _, f := range under() {
 		finfo := f.Info()
 		for _, c := range core.Calls(f.Body, true) {
 			if core.VarOf(finfo, c.Fun) != colVar || len(c.Args) != 3 {
@@ -308,8 +330,8 @@ func c12R1R3(p *core.Program, r *core.Report, np *core.Func) {
 	}
 	// the walk that indexes the comments descends everywhere: its callback answers true (a pruned subtree - a function
 	// signature, a block - can hold struct types whose fields have doc and trailing comments)
-	for _, f := range p.Funcs() {
-		if f.Root() != np || f.Lit == nil {
+	for _, f := range under() {
+		if f.Lit == nil {
 			continue
 		}
 		finfo := f.Info()
@@ -587,10 +609,7 @@ func expandParam(p *core.Program, f *core.Func, e ast.Expr, call *ast.CallExpr, 
 		return []argSite{{f, e, call}}
 	}
 	var out []argSite
-	for _, g := range p.Funcs() {
-		if g.Root() != f.Root() {
-			continue
-		}
+	for _, g := range funcsUnder(p, f.Root()) {
 		for _, c := range core.Calls(g.Body, true) {
 			if core.VarOf(info, c.Fun) == wv && i < len(c.Args) && !c.Ellipsis.IsValid() {
 				out = append(out, expandParam(p, g, c.Args[i], c, depth+1)...)
@@ -711,10 +730,7 @@ func genericVisitFiltered(p *core.Program, f *core.Func, call *ast.CallExpr, x *
 	have := map[string]bool{}
 	var skipped []string
 	bad := false
-	for _, ff := range p.Funcs() {
-		if ff.Root() != root {
-			continue
-		}
+	for _, ff := range funcsUnder(p, root) {
 		ast.Inspect(ff.Body, func(n ast.Node) bool {
 			if lit, ok := n.(*ast.FuncLit); ok && lit != ff.Lit {
 				return false
@@ -1600,4 +1616,18 @@ func c12R6(p *core.Program, r *core.Report) {
 	if hooks == 0 {
 		r.OK(rule, &core.Func{Pkg: p.Pkg("pkg/types"), Name: "<package>"}, "files are parsed by go/packages' default parser", 0, "no ParseFile hook is installed: the default keeps comments (parser.AllErrors|parser.ParseComments)")
 	}
+}
+
+// funcsUnder: a function and its literals: the program's, or a view's own.
+func funcsUnder(p *core.Program, root *core.Func) []*core.Func {
+	if root.Origin != nil {
+		return root.AllFuncs()
+	}
+	var out []*core.Func
+	for _, f := range p.Funcs() {
+		if f.Root() == root {
+			out = append(out, f)
+		}
+	}
+	return out
 }
